@@ -131,30 +131,76 @@ Proof.
   now apply find_split.
 Qed.
 
+(* ---- presence is irrelevant: declaring any field proto3-optional, or putting it in a oneof, changes nothing ---- *)
+Lemma lookup_erase n s : lookup n (erase_presence s) = option_map plain (lookup n s).
+Proof.
+  unfold lookup, erase_presence. induction s as [|a s IH]; [reflexivity|]. cbn.
+  destruct (String.eqb (fname a) n); [reflexivity|exact IH].
+Qed.
+
+Lemma find_frep_erase s : find frep (erase_presence s) = option_map plain (find frep s).
+Proof.
+  unfold erase_presence. induction s as [|a s IH]; [reflexivity|]. cbn. destruct (frep a); [reflexivity|exact IH].
+Qed.
+
+Lemma presence_irrelevant req resp :
+  paged_result_field (erase_presence req) (erase_presence resp) = option_map plain (paged_result_field req resp).
+Proof.
+  unfold paged_result_field, has_page_size, has_max_results, first_repeated.
+  rewrite !lookup_erase, find_frep_erase.
+  destruct (lookup "page_token" req) as [t|]; [|reflexivity]. cbn [option_map].
+  change (token_ok (plain t)) with (token_ok t). destruct (negb (token_ok t)); [reflexivity|].
+  destruct (lookup "next_page_token" resp) as [n|]; [|reflexivity]. cbn [option_map].
+  change (token_ok (plain n)) with (token_ok n). destruct (negb (token_ok n)); [reflexivity|].
+  assert (H1 : match option_map plain (lookup "page_size" req) with Some f => negb (frep f) && is_int f | None => false end
+               = match lookup "page_size" req with Some f => negb (frep f) && is_int f | None => false end)
+    by (destruct (lookup "page_size" req); reflexivity).
+  assert (H2 : match option_map plain (lookup "max_results" req) with Some f => negb (frep f) && size_type_ok f | None => false end
+               = match lookup "max_results" req with Some f => negb (frep f) && size_type_ok f | None => false end)
+    by (destruct (lookup "max_results" req); reflexivity).
+  rewrite H1, H2. destruct (_ || _); reflexivity.
+Qed.
+
 (* ---- the former gaps between the code and the sentence (DESIGN section 9 no. 18, plus the label), closed by
    /repo commit 40fb15d: the three shapes are now decided as the sentence says ---- *)
-Definition book : field := mkField "books" (TMsg "google.example.library.v1" "Book") true false.
-Definition str (n : string) : field := mkField n TStr false false.
+Definition book : field := mkField "books" (TMsg "google.example.library.v1" "Book") true false PPlain.
+Definition str (n : string) : field := mkField n TStr false false PPlain.
 Definition resp_std : shape := [book; str "next_page_token"].
 Definition req_wrapper_page_size : shape :=
-  [str "parent"; mkField "page_size" (TMsg "google.protobuf" "Int32Value") false false; str "page_token"].
+  [str "parent"; mkField "page_size" (TMsg "google.protobuf" "Int32Value") false false PPlain; str "page_token"].
 Definition req_shadowed_page_size : shape :=
-  [str "max_results"; mkField "page_size" TInt false false; str "page_token"].
+  [str "max_results"; mkField "page_size" TInt false false PPlain; str "page_token"].
 Definition req_repeated_token : shape :=
-  [mkField "page_size" TInt false false; mkField "page_token" TStr true false].
+  [mkField "page_size" TInt false false PPlain; mkField "page_token" TStr true false PPlain].
 Example former_gaps_closed :
   paged_result_field req_wrapper_page_size resp_std = None /\
   option_map fname (paged_result_field req_shadowed_page_size resp_std) = Some "books" /\
   paged_result_field req_repeated_token resp_std = None.
 Proof. repeat split. Qed.
 
+Definition req_conventional_plain : shape :=
+  [mkField "parent" TStr false false PPlain; mkField "page_size" TInt false false PPlain; mkField "page_token" TStr false false PPlain].
+(* the Compute shape, and tokens in a real oneof: paginated, item field unchanged *)
+Definition req_optional_tokens : shape :=
+  [str "parent"; mkField "page_size" TInt false false POptional; mkField "page_token" TStr false false POptional].
+Definition resp_optional_token : shape := [book; mkField "next_page_token" TStr false false POptional].
+Definition req_oneof_token : shape :=
+  [str "parent"; mkField "page_size" TInt false false PPlain; mkField "page_token" TStr false false (POneof "position");
+   mkField "cursor" TStr false false (POneof "position")].
+Example optional_and_oneof_tokens_paged :
+  option_map fname (paged_result_field req_optional_tokens resp_optional_token) = Some "books" /\
+  option_map fname (paged_result_field req_oneof_token resp_std) = Some "books" /\
+  option_map fname (paged_result_field req_conventional_plain [book; mkField "next_page_token" TStr false false (POneof "next")]) = Some "books".
+Proof. repeat split. Qed.
+
+
 (* non-vacuity: a conventional List method whose response declares its repeated fields out of field-number order;
    unique names, paged by the sentence, item field = the first repeated field in declaration order *)
 Definition req_conventional : shape :=
-  [str "parent"; mkField "page_size" TInt false false; str "page_token"; str "filter"].
+  [str "parent"; mkField "page_size" TInt false false PPlain; str "page_token"; str "filter"].
 Definition resp_two_repeated : shape :=
-  [mkField "total_size" TInt false false; mkField "labels" (TMsg "p" "LabelsEntry") true true; book;
-   str "next_page_token"; mkField "unreachable" TStr true false].
+  [mkField "total_size" TInt false false PPlain; mkField "labels" (TMsg "p" "LabelsEntry") true true PPlain; book;
+   str "next_page_token"; mkField "unreachable" TStr true false PPlain].
 Example conventional_paged :
   uniq req_conventional /\ uniq resp_two_repeated /\
   spec_paged req_conventional resp_two_repeated /\
